@@ -1,5 +1,6 @@
 import SdcModel.Basic.Io
 import SdcModel.Location
+import SdcModel.LocationSearch
 open Sdc Sdc.Location Sdc.Url Sdc.Hex
 
 /-! ops (strings as `x<hex of utf-8>`, `-` = None, flag `1`/`0` = did the real `urlsplit` accept the netloc):
@@ -8,6 +9,7 @@ open Sdc Sdc.Location Sdc.Url Sdc.Hex
   `parse <flag> <scope>`                                   -> `ok <root> <fac> … <bed>` | `err <class>`
   `match <flag> <root> <fac> … <bed> <scope>`              -> `ok True|False` | `err <class>`
   `filter <root> <fac> … <bed> <svc>*`   svc = `N` | `S` | `S<flag><scope>,<flag><scope>…`  -> `ok <indices>` | `err <class>`
+  `search <root> <fac> … <bed> <types> <svc>*`   types = `t<ns>:<name>,…`, svc = `<types|->|<N|S…>`  -> `ok <indices>` | `err <class>`
   `split <flag> <url>`  -> `ok <scheme> <netloc> <path> <query> <fragment>` | `err ValueError`
   `qsl <keep> <qs>`     -> `ok <k>=<v> …`
   `utf8 <bytes>`        -> `valid` | `repaired <bytes>`
@@ -54,6 +56,39 @@ def filterIdx (self : Loc) (svcs : List (Option (List (Bool × Bytes)))) : Excep
   let indexed : List (Nat × Option (List Bytes)) := (List.range svcs.length).zip (svcs.map fun s => s.map fun scs => scs.map (·.2))
   (filterInside chk self (fun (p : Nat × Option (List Bytes)) => p.2) indexed).map fun r => r.map (·.1)
 
+def parseQName (s : String) : Option Discovery.QName :=
+  match s.splitOn ":" with
+  | [a, b] => match ofArg a, ofArg b with
+    | some a, some b => some ⟨a, b⟩
+    | _, _ => none
+  | _ => none
+
+def parseTypes (s : String) : Option (Option (List Discovery.QName)) :=
+  if s = "-" then some none
+  else match s.toList with
+    | 't' :: cs =>
+      let body := String.ofList cs
+      ((if body = "" then [] else body.splitOn ",").mapM parseQName).map some
+    | _ => none
+
+/-- `<types>|<scopes>` -> discovered service (position as epr) with the flags of its scopes -/
+def parseSearchSvc (s : String) : Option (Option (List Discovery.QName) × Option (List (Bool × Bytes))) :=
+  match s.splitOn "|" with
+  | [t, sc] => match parseTypes t, parseSvc sc with
+    | some t, some sc => some (t, sc)
+    | _, _ => none
+  | _ => none
+
+def searchIdx (self : Loc) (types : List Discovery.QName)
+    (svcs : List (Option (List Discovery.QName) × Option (List (Bool × Bytes)))) : Except LocationSearch.Err (List Nat) :=
+  let rejected : List Bytes := svcs.flatMap fun s => match s.2 with
+    | none => []
+    | some scs => scs.filterMap fun p => if p.1 then none else some (netlocOf p.2)
+  let chk : Bytes → Bool := fun nl => !rejected.contains nl
+  let remote : List Discovery.Service := (List.range svcs.length).zip svcs |>.map fun (i, t, sc) =>
+    ⟨[i], t, sc.map fun l => ⟨l.map (·.2), none⟩, [], 1, i⟩
+  (LocationSearch.searchInLocation chk ⟨[], [], [], [], false⟩ self types remote).map fun r => r.map (·.inst)
+
 def stepLine (st : Unit) (line : String) : Unit × String :=
   (st, match Io.words line with
   | "scope" :: rest => match parseLoc rest with
@@ -79,6 +114,14 @@ def stepLine (st : Unit) (line : String) : Unit × String :=
       | .ok idx => "ok " ++ Io.natList idx
       | .error e => errName e
     | _, _ => "bad-op"
+  | "search" :: r :: a :: b :: c :: d :: e :: g :: t :: svcs =>
+    match parseLoc [r, a, b, c, d, e, g], parseTypes t, svcs.mapM parseSearchSvc with
+    | some l, some (some t), some svcs => match searchIdx l t svcs with
+      | .ok idx => "ok " ++ Io.natList idx
+      | .error (.discovery .typeError) => "err TypeError"
+      | .error (.discovery _) => "err ValueError"
+      | .error (.location e) => errName e
+    | _, _, _ => "bad-op"
   | ["split", f, s] => match flag? f, ofArg s with
     | some f, some s => match urlsplit (fun _ => f) s with
       | some r => "ok " ++ " ".intercalate [toArg r.scheme, toArg r.netloc, toArg r.path, toArg r.query, toArg r.fragment]
